@@ -345,7 +345,8 @@ func Drive(w *hx.Writer, o *hx.Opts, wrap func(string) string) {
 		if r.Chance(1, 2) {
 			qid, rid = uint16(r.Intn(65536)), uint16(r.Intn(65536))
 		}
-		lit, desc, err := One(r.Bool(), qid, r.Range(10, 200), r.U64()%100000, rid, r.Range(10, 300), r.U64()%100000)
+		// replies of at least 13 bytes: the stream reader shared with TCP refuses a bare 12-byte header (C16)
+		lit, desc, err := One(r.Bool(), qid, r.Range(10, 200), r.U64()%100000, rid, r.Range(11, 300), r.U64()%100000)
 		if err != nil {
 			lit = hx.App("CId", "false", "0", "0", "0", "0", "0", "0", "9", "9", "9", "9", "9", "9") // never what the model says
 			desc = map[string]any{"error": err.Error()}
